@@ -70,16 +70,28 @@ def main():
     result["applies"] = rc == 0
     if rc != 0:
         return finish(result, out, wt, work)
-    # demo command: rewrite the agent's worktree path to ours
-    how = open(os.path.join(src, "how_to_run.txt")).read().strip().split("\n")[0]
-    how = re.sub(r"\s+#.*$", "", how)
+    # demo command: find the destination of the demo file and the go test command in the
+    # agent's (free-form) how_to_run.txt and rewrite the agent's worktree path to ours
+    how = open(os.path.join(src, "how_to_run.txt")).read()
     m = re.search(r"/tmp/mut/A\d+", how)
-    agent_wt = m.group(0) if m else None
-    demo_cmd = how
-    if agent_wt:
-        demo_cmd = how.replace(agent_wt + "/", wt + "/").replace(agent_wt + " ", wt + " ").replace(agent_wt + "&", wt + "&")
-        demo_cmd = re.sub(re.escape(agent_wt) + r"(?=$|[\s;&])", wt, demo_cmd)
-    demo_cmd = demo_cmd.replace("/tmp/mut/out/", "/tmp/mut/out/")
+    agent_wt = m.group(0) if m else "/tmp/mut/AX"
+    dests = re.findall(re.escape(agent_wt) + r"/(\S+?_test\.go)", how)
+    demos = sorted(f for f in os.listdir(src) if f.endswith("_test.go"))
+    gm = re.search(r"(go test [^()#\n]*?)(?:\s{2,}|\s*\(|\s*#|\s*$|\n)", how)
+    gotest = gm.group(1).strip() if gm else ""
+    parts = []
+    if dests and demos:
+        for i, d in enumerate(dict.fromkeys(dests)):
+            srcf = demos[min(i, len(demos) - 1)]
+            parts.append("cp %s %s" % (os.path.join(src, srcf), os.path.join(wt, d)))
+    elif demos:
+        # no explicit destination: look for a package directory mentioned in the go test command
+        pm = re.search(r"\./(pkg/\S+?)/?(?:\s|$)", gotest)
+        if pm:
+            parts.append("cp %s %s" % (os.path.join(src, demos[0]), os.path.join(wt, pm.group(1), "zz_seeded_demo_test.go")))
+    parts.append("cd %s" % wt)
+    parts.append(gotest or "false")
+    demo_cmd = " && ".join(parts)
     result["demo_cmd"] = demo_cmd
     rc, o = sh(demo_cmd, timeout=1200)
     note("demo on unchanged tree (expect pass)", rc, o)
